@@ -43,3 +43,58 @@ package traversalrecord
 //@   callsite TraversalRecord.RecordNextStep: assert len(tr.children) > 0 && isT(self)
 //@   ensures treeShape() && leavesLinked() && nodeOK(tr)
 //@   ensures grewOnly()
+
+//@ -- the replay verifier: a stack of link objects, each the child its segment names in the node below it
+//@ pred stackOK(v *Verifier) := v != nil
+//@   && (forall i int :: slo(v.stack) <= i && i < shi(v.stack) ==> isL(sat(v.stack, i)) && isT(sat(v.stack, i).TraversalRecord))
+//@   && (forall i int :: slo(v.stack) < i && i < shi(v.stack) ==>
+//@         sat(v.stack, i).segment in sat(v.stack, i - 1).childSegments
+//@         && sat(sat(v.stack, i - 1).children, slo(sat(v.stack, i - 1).children) + sat(v.stack, i - 1).childSegments[sat(v.stack, i).segment]) == sat(v.stack, i))
+//@ -- between two verification steps the verifier rests on a node that carries a link (or has run off the tree)
+//@ pred atLink(v *Verifier) := len(v.stack) == 0 || len(v.stack) == 1 || v.stack[len(v.stack) - 1].link != nil
+//@ pred recOK() := treeShape() && leavesLinked()
+
+
+//@ func Verifier.tip
+//@   requires v != nil
+//@   modifies nothing
+//@   ensures len(v.stack) == 0 ==> result == nil
+//@   ensures len(v.stack) > 0 ==> result == v.stack[len(v.stack) - 1]
+
+//@ func Verifier.Done
+//@   requires stackOK(v)
+//@   modifies nothing
+//@   ensures result == (len(v.stack) == 0 || (len(v.stack) == 1 && v.stack[0].link == nil))
+
+//@ func Verifier.appendUntilLink
+//@   requires stackOK(v) && len(v.stack) >= 1 && recOK()
+//@   modifies v.stack
+//@   loop 1 invariant stackOK(v) && len(v.stack) >= 1 && slo(v.stack) == old(slo(v.stack)) && shi(v.stack) >= old(shi(v.stack))
+//@   ensures stackOK(v) && atLink(v) && len(v.stack) >= 1
+
+//@ func Verifier.nextLink
+//@   requires stackOK(v) && len(v.stack) >= 1 && recOK()
+//@   modifies v.stack
+//@   ensures stackOK(v) && atLink(v)
+
+//@ func NewVerifier
+//@   requires isT(root) && recOK()
+//@   modifies alloc, Verifier.stack, traversalLink.segment, traversalLink.TraversalRecord
+//@   ensures stackOK(result) && atLink(result) && fresh(result) && recOK()
+
+//@ -- C01 / C02: a remote link is accepted only if it is the link the local traversal loaded at this position, and only
+//@ -- if it does not claim more than the local traversal found; anything else is an error (the caller must not swallow)
+//@ func Verifier.VerifyNext
+//@   requires stackOK(v) && atLink(v) && recOK()
+//@   modifies v.stack
+//@   ensures stackOK(v) && atLink(v)
+//@   ensures result == nil ==> old(len(v.stack)) > 0 && old(v.stack[len(v.stack) - 1].link) != nil && deref(old(v.stack[len(v.stack) - 1].link)) == link
+//@   ensures result == nil ==> (old(v.stack[len(v.stack) - 1].successful) || !successful)
+
+//@ -- the path of the node the verifier rests on: the segments of the stack above the root entry
+//@ func Verifier.CurrentPath
+//@   requires stackOK(v)
+//@   modifies nothing
+//@   loop 1 invariant len(segments) == max(idx1 - 1, 0) && (forall k int :: 0 <= k && k < len(segments) ==> segments[k] == v.stack[k + 1].segment)
+//@   ensures pathLen(result) == max(len(v.stack) - 1, 0) || (pathLen(result) == 0 && len(v.stack) == 1)
+//@   ensures forall k int :: 0 <= k && k < pathLen(result) ==> pathSeg(result, k) == v.stack[k + 1].segment
